@@ -1,5 +1,6 @@
 import json
 from mindsdb_sql.parser.ast.base import ASTNode
+from mindsdb_sql.parser.ast.select.operation import param_to_string
 from mindsdb_sql.parser.utils import indent
 
 
@@ -45,7 +46,7 @@ class CreateDatabase(ASTNode):
 
         engine_str = ''
         if self.engine:
-            engine_str = f'ENGINE = {repr(self.engine)} '
+            engine_str = f'ENGINE = {param_to_string(self.engine)} '
 
         parameters_str = ''
         if self.parameters:
